@@ -93,3 +93,58 @@ def skeleton_obligations(res, prop_mods, names):
         except C.Fail as e:
             res.notes.append({"model_search_failed": str(e)[:500]})
     return ok, broken, cex
+
+
+# ------------------------------------------------------------------ trace inclusion: real run -> skeleton
+
+def observations(sc, r):
+    """the callbacks the Run goroutine of a real program entered, in order, as Coq `obs` terms (Proof/SkelTrace.v)"""
+    filtered = bool((sc.get("opts") or {}).get("filter") is not None)
+    evs = sorted([e for e in r["events"] if e["ev"] in ("InitBegin", "ViewBegin", "FilterBegin", "UpdateBegin", "ExecRunBegin")], key=lambda e: e["c"])
+    out = []
+    for e in evs:
+        k = e["ev"]
+        if k == "InitBegin":
+            out.append("OInit")
+        elif k == "ViewBegin":
+            out.append("OView0" if e.get("k") == 1 else "OView")
+        elif k == "UpdateBegin":
+            out.append("OUpdate")
+        elif k == "ExecRunBegin":
+            out.append("OExecRun")
+        elif k == "FilterBegin" and filtered:
+            key = e.get("key", "")
+            out.append("OFilter " + {"b:quit": "MkQuit", "b:interrupt": "MkInt", "b:batch": "MkBatch", "b:exec": "MkExec"}.get(key, "MkUser"))
+    if r["run_returned"]:
+        out.append("OReturned " + P.err_coq(r))
+    return filtered, out
+
+
+def trace_inclusion(res, name, triples, limit):
+    """triples: [(scenario, meta, result)].  For up to `limit` runs (spread over the list) the observed callback sequence must
+    be a path of the skeleton under the guards extracted from the current source (Proof/SkelTrace.accepts, soundness:
+    accepts_sound).  Returns the list of (scenario, meta, result, index of the first observation the model cannot follow)."""
+    usable = [(sc, m, r) for sc, m, r in triples if not P.machinery_problem(r) and not r.get("crashed") and r["run_returned"]
+              and sc.get("input", {}).get("kind", "none") in ("none", "pipe", "reader") and not sc.get("out_fault")]
+    step = max(1, len(usable) // max(1, limit))
+    chosen = usable[::step][:limit]
+    rows = []
+    for i, (sc, m, r) in enumerate(chosen):
+        filtered, obs = observations(sc, r)
+        o = sc.get("opts") or {}
+        sigh = o.get("nosighandler") is False
+        rows.append("(%d%%nat, %s, %s, %s, [%s])" % (i, "true" if filtered else "false", "true" if sigh else "false",
+                                                    "true" if o.get("nosignals") else "false", "; ".join(obs)))
+    if not rows:
+        return []
+    rows_def = "Definition rows : list (nat * bool * bool * bool * list obs) := [%s]."
+    body = ["Definition G := Eval vm_compute in guards_of_gen.",
+            "Definition stuck (x : nat * bool * bool * bool * list obs) : nat := let '(i, f, sh, ig, os) := x in first_stuck G f (inits_for sh ig) os 0.",
+            "Definition bad := flat_map (fun x => let '(i, f, sh, ig, os) := x in let k := stuck x in if (k =? List.length os)%nat then [] else [i; k]) rows."]
+    pre = PRE.replace("Proof.SkelCert", "Proof.SkelCert Proof.SkelTrace") + "From Coq Require Import Arith.\n"
+    flat, dt = C.coq_eval_sharded("cases_%s_trace" % name, pre, rows, rows_def, body, "bad", shard=2, timeout=1500, parallel=8)
+    bad = [(chosen[flat[j]] + (flat[j + 1],)) for j in range(0, len(flat), 2)]
+    res.oblige("K2 (code within model): the callback sequences of %d real runs are paths of the skeleton (Proof/SkelTrace.accepts over the extracted guards)" % len(chosen),
+               not bad, [(m.get("cause"), m.get("point"), observations(sc, r)[1][:k + 1]) for sc, m, r, k in bad[:2]])
+    res.coverage["trace_inclusion"] = {"runs": len(chosen), "observations": sum(len(observations(sc, r)[1]) for sc, m, r in chosen), "coq_seconds": round(dt, 1)}
+    return bad
